@@ -66,6 +66,9 @@ def scenario(rng, kind, thorough=False):
         rchunk = chunk(rng, total, calls)
         wchunk = chunk(rng, total, calls)
         order = rng.choice([0, 1, 2, 3])
+        if use_stdin and rng.random() < 0.2:
+            # the Child keeps its ChildStdin while wait / wait_with_output consumes it
+            order, n_in = rng.choice([4, 5]), 0
     ek, ea = exit_of(rng)
     reuse = rng.choice([0, 1])
     delay = rng.choice([0, 0, 0, 40, 120])
